@@ -141,6 +141,7 @@ def h_pipeline(max_stages=2, local=False, fails=True):
         pj = os.path.join(out, "pipeline.json")
         stage_dir = lambda k: os.path.join(out, "output-stage%d" % k)  # noqa: E731
         complete_seq = {}
+        dup_done = [False]
         for step in range(80):
             for k in range(1, n + 1):
                 if k not in complete_seq and os.path.exists(os.path.join(stage_dir(k), "cluster_config.json")):
@@ -148,6 +149,15 @@ def h_pipeline(max_stages=2, local=False, fails=True):
                     if c is not None and c.is_complete():
                         complete_seq[k] = w.seq
             evs = enabled_events(w)
+            cur_now = json.load(open(pj))["stage_num"]
+            if evs and cur_now >= 2 and not dup_done[0] and ex.flag("dup_at_%d" % step):
+                # a stale/duplicate completion report of an earlier stage arrives while a later stage is queued or running
+                dup_done[0] = True
+                nsb0, before0 = len(w.events("sbatch")), open(pj).read()
+                r0 = w.user(["jade", "pipeline", "submit-next-stage", out, "--stage-num=%d" % cur_now, "--return-code=0"])
+                ex.check(r0.rc != 0 and len(w.events("sbatch")) == nsb0 and open(pj).read() == before0,
+                         "C15: duplicate stage transition accepted while a later stage is in progress", stage=cur_now, rc=r0.rc)
+                continue
             if not evs:
                 cur = json.load(open(pj))["stage_num"]
                 if cur == n + 1:
